@@ -399,8 +399,10 @@ def report(out, seed):
     if checker_errors:
         for e in checker_errors:
             print("CHECKER-ERROR:", e[:2000])
-        return 3
-    return 1 if violations else 0
+    # a violation that was confirmed stands (exit 1) even if another obligation could not be run; a checker error alone is exit 3
+    if violations:
+        return 1
+    return 3 if checker_errors else 0
 
 
 def replay(path):
